@@ -114,10 +114,40 @@ def st_roundtrip_over_pruned_chain(draw, tier, cfg=None):
     return (universe, leaves, out)
 
 
+@st.composite
+def st_join_with_transferred_identity(draw, tier):
+    """A predicate join in the SQL engine one of whose operands is a join identity that lives in an iteration engine and
+    is transferred in: the join stays in the tree (its predicate filters), the identity side is statically trivial."""
+    from vf.core.expr import st_pred
+    from vf.core.prog import engine_of, schema
+
+    universe, leaves, prog = draw(st_program(cfg(tier)))
+    if engine_of(prog, leaves) != 0:
+        prog = ("xfer", prog, 0)
+    cols = schema(prog, leaves)
+    i = len(leaves)
+    ident = (f"L{i}", (), ((),), draw(st.sampled_from([1, 2])), "identity", (1, 1), "plain")
+    leaves = tuple(leaves) + (ident,)
+    other = ("xfer", ("leaf", i), 0)
+    pred = draw(st_pred(cols, 1, literals=False)) if cols else None
+    out = ("join", prog, other, pred) if draw(st.booleans()) else ("join", other, prog, pred)
+    if draw(st.integers(0, 2)) == 0:
+        out = ("mat", out, "mjoin")
+    if draw(st.booleans()):
+        out = ("xfer", out, draw(st.sampled_from([1, 2])))
+    return (universe, leaves, out)
+
+
 def strategy(tier):
     return st.tuples(
         st.one_of(
-            st_program(cfg(tier)), st_program(cfg(tier)), st_program(cfg(tier)), st_mat_over_chain(tier), st_roundtrip_over_pruned_chain(tier)
+            st_program(cfg(tier)),
+            st_program(cfg(tier)),
+            st_program(cfg(tier)),
+            st_program(cfg(tier)),
+            st_mat_over_chain(tier),
+            st_roundtrip_over_pruned_chain(tier),
+            st_join_with_transferred_identity(tier),
         ),
         st.integers(1, 3),
         # 0: the program alone; 1: chained with a second, separately built copy of itself (equal but distinct relation
